@@ -3,6 +3,11 @@
 import json
 
 CLAIMED = {
+ "C08": dict(
+   text="Static fault-site analysis over all repository code reachable from the HTTP handlers and goroutine roots of both servers: every integer division, constant/direct index or slice bound, slice-to-array conversion, explicit panic, unchecked type assertion, dereference of a nil-tested pointer, request-sized loop cursor and handler-side channel operation whose faulting operand is request-controlled must be excluded by a dominating guard, interval/length fact, validated-field fact or call-site proof. Decides that structural clause for every input; does not decide message wording, timing, or faults inside library code.",
+   note="Trusts go/types, go/ssa, VTA call graph; explicit data flow only; integer overflow not modelled except for the chunk-parser cursor; reviewed exceptions are listed in the evidence with their reasons.",
+   technique="static analysis: field-based taint/dependence graph + path-sensitive guard and interval reasoning over SSA (fault classes A-F)",
+   ref="DESIGN.md §2 E3, §3 C08"),
  "C18": dict(
    text="Static analysis (SSA control-flow walk + range/guard analysis) of two structural necessary conditions: every callback/read error is returned on all non-nil paths, and the box-walk cursor provably advances and cannot wrap. Decides those clauses for every input and read schedule; does not decide output equality.",
    note="Trusts go/types, go/ssa; VTA call graph for reachability; integer overflow only modelled where a rule says so.",
